@@ -53,6 +53,9 @@ def build(tree, memo=None):
     if k == "global":
         return getattr(importlib.import_module(tree["mod"]), tree["attr"])
     if k == "opaque":
+        if tree.get("v") == "logger":
+            import logging
+            return logging.getLogger("x816")
         return None
     if k == "ref":
         return memo[tree["id"]]
@@ -108,16 +111,49 @@ def build(tree, memo=None):
     raise ValueError(f"cannot build {tree!r}")
 
 
-def run_harness(qualname, params_tree):
-    """-> dict(outcome = pass | violation | assumption-failed | exception, detail)"""
+def patch_target(qualname, new):
+    """Monkey-patch `qualname` (module.attr or module.Class.attr) with `new`; returns an undo thunk."""
+    parts = qualname.split(".")
+    for i in range(len(parts) - 1, 0, -1):
+        try:
+            owner = importlib.import_module(".".join(parts[:i]))
+        except ImportError:
+            continue
+        for a in parts[i:-1]:
+            owner = getattr(owner, a)
+        name = parts[-1]
+        missing = object()
+        old = owner.__dict__.get(name, missing) if hasattr(owner, "__dict__") else missing
+        setattr(owner, name, new)
+
+        def undo(owner=owner, name=name, old=old):
+            if old is missing:
+                delattr(owner, name)
+            else:
+                setattr(owner, name, old)
+        return undo
+    raise ImportError(qualname)
+
+
+def run_harness(qualname, params_tree, overrides=None):
+    """-> dict(outcome = pass | violation | assumption-failed | exception, detail).  `overrides` are the assumed contracts
+    on dependencies (real function name -> spec function name) the proof used; they are monkey-patched in, so the replay
+    runs the REAL function under contract against the same stubbed dependencies."""
     from vf.contracts import rt
 
     fn = resolve(qualname)
     memo = {}
     kwargs = {name: build(t, memo) for name, t in params_tree.items()}
     rt.CHECKS_RUN.clear()
+    rt.EVENTS.clear()
+    rt.GHOST.clear()
+    undo = [patch_target(k, resolve(v)) for k, v in (overrides or {}).items()]
     try:
-        fn(**kwargs)
+        try:
+            fn(**kwargs)
+        finally:
+            for u in reversed(undo):
+                u()
     except rt.ContractViolation as e:
         return {"outcome": "violation", "detail": e.name, "checks_run": list(rt.CHECKS_RUN)}
     except rt.AssumptionFailed:
@@ -131,7 +167,7 @@ def main():
     req = json.load(sys.stdin)
     out = []
     for item in req["items"]:
-        out.append(run_harness(item["harness"], item["params"]))
+        out.append(run_harness(item["harness"], item["params"], item.get("overrides")))
     json.dump(out, sys.stdout)
 
 
